@@ -3,6 +3,7 @@ mod driver;
 mod wgen;
 mod jdoc;
 mod kernel;
+mod miri;
 mod model;
 mod props;
 mod refjson;
